@@ -19,7 +19,7 @@ check(
     "C17",
     "explicit-state search: every operation history up to length L on the real AsyncQueue "
     "(hand-stepped virtual asyncio loop), list reference model",
-    "Every operation sequence up to the stated length over the 8-operation alphabet is executed "
+    "Every operation sequence up to the stated length over the 11-operation alphabet (evidence.rule lists it) is executed "
     "against the real queue on a fresh hand-stepped loop and compared with a list reference; "
     "this is a coverage statement for all producer/consumer placements within the bound.",
     "asyncio FIFO callback order; single consumer; histories longer than L are not covered.",
@@ -30,7 +30,7 @@ check(
     "C01",
     "exhaustive enumeration of the scope-program grammar (forests of scope/update blocks x "
     "supplies x probe positions) on the real context vs an environment-stack interpreter",
-    "Every program of the stated grammar (all nestings up to N blocks, 4 block kinds, 8 supplies, "
+    "Every program of the stated grammar (all nestings up to N blocks, 5 block kinds, 17 supplies in the sub-families listed in evidence.rule, "
     "probes at every position) is executed on the real ctx and every lookup compared with an "
     "independent environment-stack interpreter; complete for the grammar, nothing sampled.",
     "state family {A, A2(A), R, G[int]}; trees deeper/wider than the bound are not covered.",
@@ -50,7 +50,7 @@ check(
     "stateless DFS over schedules (prefix replay) of caller start/cancel, invocation completion "
     "and expiry on the real async cache",
     "Every interleaving of the environment actions (incl. two events in one loop iteration) for "
-    "2-4 callers over 1-2 keys is executed on the real code; single-flight, isolation of "
+    "2-4 callers over 1-2 keys (5 callers over 3 keys in one sub-family) is executed on the real code; single-flight, isolation of "
     "cancellation and delivery are checked against a reference model on each.",
     "asyncio FIFO callback order inside one loop iteration; callers started in index order.",
     "3/C13",
